@@ -52,6 +52,11 @@ func runOne(t *testing.T, c Case, tape *kernel.Tape) (res RunResult) {
 		verifhook.OnLock, verifhook.OnUnlock, verifhook.OnRange = nil, nil, nil
 		if r := recover(); r != nil {
 			res.Crash = fmt.Sprint(r)
+			if os.Getenv("VERIF_DEBUG") != "" {
+				buf := make([]byte, 1<<20)
+				n := runtime.Stack(buf, true)
+				fmt.Fprintf(os.Stderr, "BUBBLE CRASH %v\n%s\n", r, buf[:n])
+			}
 			if res.Viol == nil {
 				res.Viol = &kernel.Violation{Oracle: c.Prop + ".bubble", Msg: "bubble ended abnormally: " + res.Crash}
 			}
